@@ -129,27 +129,35 @@ const fn with_obs(own: G) -> [G; 9] {
     [own, G::Query, G::Bytes, G::Text, G::Cmp, G::Hash, G::Iter, G::Uint, G::Conv]
 }
 static SC_C01: [G; 9] = with_obs(G::Arith);
+static SC_C02: [G; 9] = with_obs(G::Div);
 static SC_C04: [G; 9] = with_obs(G::Logic);
+static SC_C05: [G; 9] = with_obs(G::Shift);
 static SC_C06: [G; 9] = with_obs(G::Rot);
 static SC_C07: [G; 9] = with_obs(G::Edit);
+static SC_C08: [G; 9] = with_obs(G::Slice);
+static SC_C11: [G; 9] = with_obs(G::Uint);
 static SC_C12: [G; 9] = with_obs(G::Conv);
+static SC_C13: [G; 9] = with_obs(G::Bytes);
+// C15's own family (formatting the parsed vector again) is an observer family; the complete format matrix with its quadratic
+// decimal conversion runs on the sampled `full` subjects only, `{:x}` on every one
+static SC_C15: [G; 9] = with_obs(G::Query);
 
-/// The families a property's own check looks through (first element = the property's own family, always run):
-/// the ones whose `observe_at` names the observer battery get the pure observers as well, never the follow-up
-/// operations of other families.
+/// The families a property's own check looks through (first element = the property's own family, always run): the
+/// vector an operation returns is judged by re-applying the property's own family and by the pure observers, never
+/// by the follow-up operations of other families.
 pub fn scope_for(prop: &str) -> Option<&'static [G]> {
     match prop {
         "C01" => Some(&SC_C01),
-        "C02" => Some(&[G::Div]),
+        "C02" => Some(&SC_C02),
         "C04" => Some(&SC_C04),
-        "C05" => Some(&[G::Shift]),
+        "C05" => Some(&SC_C05),
         "C06" => Some(&SC_C06),
         "C07" => Some(&SC_C07),
-        "C08" => Some(&[G::Slice]),
-        "C11" => Some(&[G::Uint]),
+        "C08" => Some(&SC_C08),
+        "C11" => Some(&SC_C11),
         "C12" => Some(&SC_C12),
-        "C13" => Some(&[G::Bytes]),
-        "C15" => Some(&[G::Text]),
+        "C13" => Some(&SC_C13),
+        "C15" => Some(&SC_C15),
         "C03" | "SANIT" => None,
         _ => Some(&[]),
     }
